@@ -450,7 +450,9 @@ func secLists() []*[][]string {
 	mk := func(l [][]string) *[][]string { return &l }
 	return []*[][]string{nil, mk([][]string{}), mk([][]string{{}}), mk([][]string{{"s1"}}), mk([][]string{{"s1", "s2"}}), mk([][]string{{"s1"}, {"s2"}}), mk([][]string{{"s2"}, {}}), mk([][]string{{"s1", "s2"}, {"s3"}}),
 		// the same scheme under different scopes in alternative requirements: the callback decides per scope
-		mk([][]string{{"s1/admin"}, {"s1/read"}}), mk([][]string{{"s1/read", "s2"}, {"s1/admin"}}), mk([][]string{{"s1/admin", "s2"}, {"s1/read", "s3"}, {"s2"}})}
+		mk([][]string{{"s1/admin"}, {"s1/read"}}), mk([][]string{{"s1/read", "s2"}, {"s1/admin"}}), mk([][]string{{"s1/admin", "s2"}, {"s1/read", "s3"}, {"s2"}}),
+		// an alternative naming a scheme the document does not declare fails on its own; the others still count
+		mk([][]string{{"sX"}, {"s1"}}), mk([][]string{{"s1", "sX"}, {"s2"}, {"sX"}})}
 }
 
 func enumerate(shard, nshards int, yield func(Case)) {
